@@ -161,10 +161,42 @@ fn topology(rng: &mut Rng) -> Vec<IfSpec> {
         ],
         _ => scen::random_topology(rng),
     };
+    // a secondary address inside a subnet the interface already has (an alias, a rotating IPv6 address)
+    if rng.chance(1, 3) {
+        let k = rng.usize(v.len());
+        let extra: Vec<(IpAddr, u8)> = v[k].addrs.iter().filter_map(|(a, p)| sibling(a).map(|s| (s, *p))).collect();
+        if let Some(e) = extra.first() {
+            if !v.iter().any(|i| i.addrs.iter().any(|(a, _)| *a == e.0)) {
+                v[k].addrs.push(*e);
+            }
+        }
+    }
     if rng.chance(1, 3) {
         v.insert(0, IfSpec::new("lo", 1, 9, &[("127.0.0.1", 8), ("::1", 128)]));
     }
     v
+}
+
+/// Another host address of the same subnet (last byte + 1).
+fn sibling(a: &IpAddr) -> Option<IpAddr> {
+    match a {
+        IpAddr::V4(v) => {
+            let mut o = v.octets();
+            if v.is_loopback() || o[3] >= 250 {
+                return None;
+            }
+            o[3] += 1;
+            Some(IpAddr::from(o))
+        }
+        IpAddr::V6(v) => {
+            let mut o = v.octets();
+            if v.is_loopback() || o[15] >= 250 {
+                return None;
+            }
+            o[15] += 1;
+            Some(IpAddr::from(o))
+        }
+    }
 }
 
 fn random_kind(rng: &mut Rng, table: &[IfSpec]) -> Kind {
@@ -194,7 +226,36 @@ fn random_kind(rng: &mut Rng, table: &[IfSpec]) -> Kind {
 /// One random edit of the interface table; returns what was done.
 fn edit_table(rng: &mut Rng, table: &mut Vec<IfSpec>) -> &'static str {
     for _ in 0..8 {
-        match rng.below(7) {
+        match rng.below(9) {
+            7 => {
+                // renumbering inside the subnet: one address is replaced by its neighbour
+                let k = rng.usize(table.len());
+                if table[k].addrs.is_empty() {
+                    continue;
+                }
+                let j = rng.usize(table[k].addrs.len());
+                let Some(n) = sibling(&table[k].addrs[j].0) else { continue };
+                if table.iter().any(|i| i.addrs.iter().any(|(a, _)| *a == n)) {
+                    continue;
+                }
+                table[k].addrs[j].0 = n;
+                return "address-renumbered";
+            }
+            8 => {
+                // a second address inside a subnet the interface already has
+                let k = rng.usize(table.len());
+                if table[k].addrs.is_empty() {
+                    continue;
+                }
+                let j = rng.usize(table[k].addrs.len());
+                let (a, p) = table[k].addrs[j];
+                let Some(n) = sibling(&a) else { continue };
+                if table.iter().any(|i| i.addrs.iter().any(|(x, _)| *x == n)) {
+                    continue;
+                }
+                table[k].addrs.push((n, p));
+                return "address-added-in-subnet";
+            }
             0 => {
                 // a new address on a new subnet of an existing interface
                 let k = rng.usize(table.len());
@@ -1139,7 +1200,7 @@ pub fn run(report: &Report, tier: &Tier) {
     report.assume("nothing is judged for one interface-check interval after an edit of the interface table (the daemon cannot know yet)");
     report.assume("a family with an address of the service in the link's subnet is what 'an address in the same subnet' means per packet; link-local IPv6 prefixes are the same subnet on every link");
     let seed = report.seed;
-    let n: u64 = if tier.thorough { 90_000 } else { 3_000 };
+    let n: u64 = if tier.thorough { 900_000 } else { 3_000 };
     run_parallel(report, n, threads(), tier.budget_s, |i, l| match i % 3 {
         0 => run_s(util::mix(seed, 0xC18_0000 + i), l),
         1 => run_e(util::mix(seed, 0xC18_0000 + i), l),
